@@ -242,16 +242,16 @@ Definition import_path (c : cfg) (ly : layers) (x : G.path) : ires (layers * ele
   end.
 
 (** * Instances *)
-Definition cell_map : Type := list (string * nat).
-Fixpoint cm_get (m : cell_map) (nm : string) : option nat :=
+(** `cell_map : HashMap<String, Ptr<Cell>>`, keyed by the name's bytes (a Rust `String` is its UTF-8 bytes) *)
+Definition cell_map : Type := list (G.bytes * nat).
+Fixpoint cm_get (m : cell_map) (nm : G.bytes) : option nat :=
   match m with
   | [] => None
-  | (k, v) :: r => if String.eqb k nm then Some v else cm_get r nm
+  | (k, v) :: r => if Base.Hex.zlist_eqb k nm then Some v else cm_get r nm
   end.
 
 Definition import_instance (c : cfg) (cm : cell_map) (x : G.sref) : ires instance :=
-  let cname := str_of_bytes (G.sr_name x) in
-  match cm_get cm cname with
+  match cm_get cm (G.sr_name x) with
   | None => IErr ENoCell
   | Some cell =>
     let loc := import_point (G.sr_xy x) in
@@ -323,7 +323,7 @@ Definition array_capacity (c : cfg) (cols rows : Z) : ires unit :=
 
 Definition import_instance_array (c : cfg) (cm : cell_map) (x : G.aref) : ires (option (list instance)) :=
   let cname := str_of_bytes (G.ar_name x) in
-  match cm_get cm cname with
+  match cm_get cm (G.ar_name x) with
   | None => IErr ENoCell
   | Some cell =>
     match G.ar_xy x with
@@ -559,12 +559,12 @@ Record istate : Type := mkist { is_layers : layers; is_cells : list cell; is_map
 (** import_and_add (with import_cell and `Cell::from(layout)`) *)
 Definition import_and_add (c : cfg) (st : istate) (s : G.gstruct) : ires istate :=
   let name := str_of_bytes (G.s_name s) in
-  match cm_get (is_map st) name with
+  match cm_get (is_map st) (G.s_name s) with
   | Some _ => IOk st                                         (* already done *)
   | None =>
     do ll <- import_layout c (is_map st) (is_layers st) s;
     IOk (mkist (fst ll) (is_cells st ++ [mkcell name None (Some (snd ll))])
-               (is_map st ++ [(name, List.length (is_cells st))]))
+               (is_map st ++ [(G.s_name s, List.length (is_cells st))]))
   end.
 
 Fixpoint import_structs (c : cfg) (structs : list G.gstruct) (st : istate) (order : list N) : ires istate :=
